@@ -126,8 +126,5 @@ Proof.
 Qed.
 
 (* a closing parenthesis starts no expression *)
-Lemma rparen_fail : forall f tb lv t r, parse_at (13 + f) tb lv ((KRParen, t) :: r) = PFail.
-Proof.
-  intros f tb lv t r.
-  destruct lv as [|[|[|[|[|[|[|[|[|[|[|[|[|lv]]]]]]]]]]]]]; lazy; reflexivity.
-Qed.
+Lemma rparen_fail : forall f tb t r, parse_at (13 + f) tb 1 ((KRParen, t) :: r) = PFail.
+Proof. intros. lazy. reflexivity. Qed.
